@@ -575,6 +575,7 @@ def evalnode(node, env, F, memo=None):
     C = alg.ctx()
     if memo is None:
         memo = {}
+    keep = memo.setdefault("_keep", [])  # keeps evaluated nodes alive: ids must not be recycled under a shared memo
     symenv = {C.byname[k]: v for k, v in env.items() if k in C.byname}
 
     def leaf(n):
@@ -591,6 +592,7 @@ def evalnode(node, env, F, memo=None):
             continue
         if n.op in ("k", "v"):
             memo[key] = leaf(n)
+            keep.append(n)
             stack.pop()
             continue
         a, b = n.a, n.b
@@ -632,6 +634,7 @@ def evalnode(node, env, F, memo=None):
         else:
             raise Undecided("evalnode: %s" % op)
         memo[key] = r
+        keep.append(n)
         stack.pop()
     return memo[id(node)]
 
